@@ -60,6 +60,24 @@ func scenario(p params, bounds []int) *vexp.Scenario {
 		Setup:  func(x *vexp.X) { vsys.CoarseSetupSends() },
 		Body: func(x *vexp.X) {
 			nw := vnet.Reset()
+			if p.pre == "short-reads" {
+				// a read may return fewer bytes than are available (1, 3, 4, 5, half, all but one): one such deviation per execution
+				nw.ChunkOptions = func(c *vnet.VConn, avail int) []int {
+					opts := []int{avail}
+					for _, k := range []int{1, 3, 4, 5, avail / 2, avail - 1} {
+						if k >= 1 && k < avail {
+							dup := false
+							for _, o := range opts {
+								dup = dup || o == k
+							}
+							if !dup {
+								opts = append(opts, k)
+							}
+						}
+					}
+					return opts
+				}
+			}
 			mk := func(bind string) *vsys.World {
 				opts := []vivid.ActorSystemOption{vivid.WithActorSystemRemoting(bind), vivid.WithActorSystemDefaultAskTimeout(20 * time.Second)}
 				if p.pre == "peer-was-down" {
@@ -462,6 +480,10 @@ func build(tier string) []*vexp.Scenario {
 		for _, remote := range []bool{false, true} {
 			out = append(out, scenario(params{op: op, remote: remote, pre: "peer-was-down"}, []int{0}))
 		}
+	}
+	// the same operations with one short read anywhere in the byte streams (a healthy link may split the stream anywhere)
+	for _, op := range []string{"ask", "kill", "watch", "ping", "pipe-remote-forwarder"} {
+		out = append(out, scenario(params{op: op, remote: true, pre: "short-reads"}, []int{0, 1}))
 	}
 	// the same operations right after one message that the receiving side could not decode
 	for _, op := range []string{"tell", "ask", "kill", "watch", "ping", "pipe-remote-forwarder"} {
